@@ -11,6 +11,7 @@ import SkfemVerif.Drv.DofLookup
 import SkfemVerif.Drv.RefineUniformDrv
 import SkfemVerif.Drv.Autodiff
 import SkfemVerif.Drv.Affine
+import SkfemVerif.Drv.Cache
 /-
 Registry of driver ops contributed by the per-area files: add an import and `++ xxxOps`.
 -/
@@ -18,6 +19,6 @@ open Lean
 namespace Drv
 
 def allOps : List (String × (Json → Option Json)) :=
-  bcOps ++ quadOps ++ asmOps ++ polyOps ++ integrationOps ++ meshioOps ++ conformityOps ++ surgeryOps ++ dofLookupOps ++ refineUniformOps ++ autodiffOps ++ affineOps
+  bcOps ++ quadOps ++ asmOps ++ polyOps ++ integrationOps ++ meshioOps ++ conformityOps ++ surgeryOps ++ dofLookupOps ++ refineUniformOps ++ autodiffOps ++ affineOps ++ cacheOps
 
 end Drv
